@@ -19,7 +19,7 @@ from .common import muted, rng, stable_hash, boundary_values
 
 LEVEL = 'exploration'
 RULE = ('a case is one recording: a generated design plan (1-7 wires of width 1-64 driven by Wire.put pokes between clk() '
-        'calls, py4hw.Sequence blocks, Counter, Buf and Reg copies; a watch list of 1-10 entries mixing Wire, InPort and OutPort '
+        'calls, py4hw.Sequence blocks, Counter, Buf and Reg copies; in 30% one or two extra clock domains -- ungated, or gated by a poked / Sequence-driven 1-bit wire that really closes -- instantiated before or after the recorder domain, each with its own Sequence and a share of the clocked blocks; a watch list of 1-10 entries mixing Wire, InPort and OutPort '
         'objects with duplicates and port+wire aliases and, in 30%, FieldInspector / ValueFormatter rows at any position; in 25% the recorder is attached after the simulator exists (warm-up cycles and/or a Scope) and the simulator refreshed with getSimulator(); a random order of the leaves around probe-before < Waveform < probe-after) '
         '(wires may share a short name across two scopes) plus a step list (clk(n) calls with n in 0..40, pokes, clear(), checkpoints) totalling 0-200 cycles; value histories are '
         'built from small per-wire pools with forced run lengths 1-9 so that values repeat and return. Every checkpoint compares '
@@ -161,6 +161,24 @@ def gen_plan(rnd):
             add(dict(kind=kind, width=wires[src]['width'], src=src))
     if len(wires) > 7:
         wires = wires[:7]
+    # extra clock domains (0-2): each is a block with its own ClockDriver, ungated or gated by a 1-bit wire that really closes
+    # (poked between clk() calls, or driven by a default-domain Sequence), instantiated before ('first') or after ('last') the
+    # default-domain blocks and the recorder -- so the simulator visits a gated domain before or after the recorder's domain
+    domains = []
+    if rnd.random() < 0.3:
+        for j in range(rnd.choice([1, 1, 2])):
+            gate = None
+            if rnd.random() < 0.75:
+                if rnd.random() < 0.5:
+                    gate = add(dict(kind='poke', width=1, pool=[0, 1], p=rnd.choice([0.3, 0.6])))
+                else:
+                    gate = add(dict(kind='seq', width=1, values=_runs(rnd, [0, 1], max(2, min(ncyc, 40))), once=False, nodom=True))
+            w = _width(rnd)
+            own = add(dict(kind='seq', width=w, values=_runs(rnd, _pool(rnd, w), rnd.randint(2, 20)), once=False, dom=j))
+            domains.append(dict(pos=rnd.choice(['first', 'first', 'last']), gate=gate, own=own))
+        for sp in wires:
+            if sp['kind'] in ('seq', 'reg', 'counter') and 'dom' not in sp and not sp.get('nodom') and rnd.random() < 0.4:
+                sp['dom'] = rnd.randrange(len(domains))
     nw = len(wires)
     has_out = [i for i in range(nw) if wires[i]['kind'] != 'poke']
     buf_src = {}
@@ -238,8 +256,6 @@ def gen_plan(rnd):
         steps[k:k] = ins
     steps.append(dict(op='check', short=False))
     steps.append(dict(op='check', short=True))
-    # second clock domain: the clocked producers live under their own (ungated) ClockDriver, visited before or after the recorder's
-    multi = rnd.choice(['first', 'last']) if rnd.random() < 0.2 else None
     nest = rnd.random() < 0.25
     # rows that are not wires (py4hw.FieldInspector / a ValueFormatter subclass) at any position of the watch list: first,
     # between wires of either format class, last, repeated.  They watch a harness-owned attribute that changes between clk() calls.
@@ -255,7 +271,7 @@ def gen_plan(rnd):
     attach = None
     if rnd.random() < 0.25:
         attach = dict(warm=rnd.choice([0, 1, 2, 5]), scope=rnd.random() < 0.4)
-    return dict(wires=wires, watch=watch, layout=layout, nest=nest, steps=steps, multi=multi, attach=attach)
+    return dict(wires=wires, watch=watch, layout=layout, nest=nest, steps=steps, domains=domains, attach=attach)
 
 
 # --------------------------------------------------------------------------- execution + judgement
@@ -335,16 +351,21 @@ def run_plan(plan, stats=None):
     side = Box(hw, 'side')
     ws = [(side if s.get('scope') else top).wire(s['name'], s['width']) for s in specs]
     blocks = {}
-    dom = None
-    if plan.get('multi'):
-        dom = Box(hw, 'dom')
-        dom.clockDriver = py4hw.ClockDriver('clk2', base=hw.clockDriver, wire=hw.wire('clk2w'))
+    doms = []
+    gates = []
+    for j, dsp in enumerate(plan.get('domains') or []):
+        b = Box(hw, 'dom%d' % j)
+        g = ws[dsp['gate']] if dsp['gate'] is not None else None
+        b.clockDriver = py4hw.ClockDriver('clk%d' % (j + 2), base=hw.clockDriver, enable=g, wire=hw.wire('clk%dw' % (j + 2)))
+        doms.append(b)
+        if g is not None:
+            gates.append(g)
     in_dom = set()
     for i, s in enumerate(specs):
         k, nm = s['kind'], 'd%d' % i
         par = top
-        if dom is not None and k in ('seq', 'reg', 'counter'):
-            par = dom
+        if s.get('dom') is not None and k in ('seq', 'reg', 'counter'):
+            par = doms[s['dom']]
             in_dom.add(nm)
         if k == 'seq':
             blocks[nm] = py4hw.Sequence(par, nm, list(s['values']), ws[i], once=bool(s.get('once')))
@@ -406,10 +427,11 @@ def run_plan(plan, stats=None):
         if k not in order_:
             order_[k] = v
     top.children = order_
-    if dom is not None:
-        # the other domain's leaves are registered (and its driver visited) before or after the recorder's
-        rest = {k: v for k, v in hw.children.items() if v is not dom}
-        hw.children = dict([('dom', dom)] + list(rest.items())) if plan['multi'] == 'first' else dict(list(rest.items()) + [('dom', dom)])
+    if doms:
+        # the other domains' leaves are registered (and their drivers visited) before or after the recorder's
+        pos = [d['pos'] for d in plan['domains']]
+        rest = [(k, v) for k, v in hw.children.items() if v not in doms]
+        hw.children = dict([(b.name, b) for b, p_ in zip(doms, pos) if p_ == 'first'] + rest + [(b.name, b) for b, p_ in zip(doms, pos) if p_ == 'last'])
     sim = hw.getSimulator()
     # reference = the value every wire carries when a cycle starts (going into the clock edge), taken by a wrapper
     # around Simulator._clk_cycle; the probes around the recorder are a cross-check of the clocking-phase view
@@ -421,6 +443,12 @@ def run_plan(plan, stats=None):
         for lst, w in zip(pre, ws):
             lst.append(w.get())
         tags.append(side.tag)
+        if gates:
+            closed = sum(1 for g in gates if g.get() == 0)
+            if closed:
+                cnt('cycles_with_a_clock_gate_closed')
+            if closed > 1:
+                cnt('cycles_with_two_clock_gates_closed')
         return real_cycle()
     sim._clk_cycle = cycle_with_snapshot
     import types
@@ -473,7 +501,12 @@ def run_plan(plan, stats=None):
             since = 0
             cnt('clears')
         else:
-            # ---- harness self-checks (a failure here is a harness/simulator problem, not a C15 verdict)
+            # ---- the verdict: recorder against the per-cycle snapshot taken when each simulated cycle starts
+            cnt('checkpoints')
+            if since == 0:
+                cnt('checkpoints_zero_cycles')
+            nev += _judge(plan, wf, objs, ws, ref, since, bool(st.get('short')), cnt)
+            # ---- harness cross-checks (a failure here is a harness/simulator problem, not a C15 verdict)
             if pb.calls != total or pa.calls != total:
                 problems.append('probe clocked %d/%d times in %d cycles' % (pb.calls, pa.calls, total))
             if pb.rec != pa.rec:
@@ -483,12 +516,8 @@ def run_plan(plan, stats=None):
                     problems.append('probe does not see the poked values on %s' % specs[i]['name'])
             if problems:
                 return nev, nontriv, problems
-            cnt('checkpoints')
-            if since == 0:
-                cnt('checkpoints_zero_cycles')
             if pb.rec != pre:
                 cnt('probe_view_differs_from_pre_cycle_snapshot')
-            nev += _judge(plan, wf, objs, ws, ref, since, bool(st.get('short')), cnt)
             if any(_nontrivial(pre[e['wire']]) for e in plan['watch'] if e['wire'] is not None):
                 nontriv = True
     return nev, nontriv, problems
@@ -607,6 +636,12 @@ def _features(plan):
                 f.add('inspector_between')
             if k > 0 and allw[k - 1]['wire'] is not None:
                 f.add('inspector_after_1bit_wire' if plan['wires'][allw[k - 1]['wire']]['width'] == 1 else 'inspector_after_wide_wire')
+    for dsp in plan.get('domains') or []:
+        f.add('extra_clock_domain')
+        if dsp['gate'] is not None:
+            f.add('gated_domain_instantiated_%s' % ('before_recorder_domain' if dsp['pos'] == 'first' else 'after_recorder_domain'))
+    if sum(1 for dsp in plan.get('domains') or [] if dsp['gate'] is not None) >= 2:
+        f.add('two_gated_domains')
     if plan.get('attach'):
         f.add('late_attach')
         f.add('late_attach_after_scope' if plan['attach']['scope'] else 'late_attach_after_warmup')
@@ -693,14 +728,16 @@ def run_check(run, tier, seed, shard):
             if not stats.get(need):
                 run.inconclusive.append('monitor observed no %s' % need)
     if shard is None:
-        for need in ('duplicate_entry', 'port_wire_alias', 'clear', 'zero_cycles', 'late_attach', 'inspector_between'):
+        for need in ('duplicate_entry', 'port_wire_alias', 'clear', 'zero_cycles', 'late_attach', 'inspector_between',
+                 'gated_domain_instantiated_before_recorder_domain', 'gated_domain_instantiated_after_recorder_domain', 'two_gated_domains'):
             if not feats.get(need):
                 run.inconclusive.append('no recording with %s' % need)
 
 
 def post_merge(run, tier, seed):
     feats = run.extra.get('recordings_with', {})
-    for need in ('duplicate_entry', 'port_wire_alias', 'clear', 'zero_cycles', 'late_attach', 'inspector_between'):
+    for need in ('duplicate_entry', 'port_wire_alias', 'clear', 'zero_cycles', 'late_attach', 'inspector_between',
+                 'gated_domain_instantiated_before_recorder_domain', 'gated_domain_instantiated_after_recorder_domain', 'two_gated_domains'):
         if not feats.get(need):
             run.inconclusive.append('no recording with %s' % need)
     for need in ('lanes_decoded', 'checkpoints', 'cycles'):
